@@ -308,7 +308,7 @@ def snapshot(doc):
 
 
 def generated_doc(spec):
-    from odfdo import Cell, Document, Frame, Header, List, Note, Paragraph, Row, Table
+    from odfdo import Cell, Document, Frame, Header, List, Note, Paragraph, Row, Span, Table
     from odfdo.toc import TOC
 
     if spec["type"] == "spreadsheet":
@@ -326,6 +326,13 @@ def generated_doc(spec):
         p.set_span("bold", regex="with")
         p.insert_note(after="para", note_id="n1", citation="1", body="note a")
         doc.body.append(p)
+        # notes without citation (the export then numbers them itself), a footnote inside a span and an endnote in a heading
+        p2 = Paragraph("para b ")
+        p2.append(Note("footnote", note_id="n2", body="uncited note"))
+        sp = Span("in span")
+        sp.append(Note("endnote", note_id="n3", body="uncited endnote"))
+        p2.append(sp)
+        doc.body.append(p2)
         doc.body.append(List(["a", "b"]))
         doc.body.append(Header(2, "Sub a"))
     places = spec.get("places") or []
